@@ -31,7 +31,13 @@ def run_one(m, build=True):
             return m, "STALE", "pattern not found in " + m["file"]
         if m["count"] == 1 and src.count(m["old"]) != 1:
             return m, "STALE", "pattern occurs %d times in %s" % (src.count(m["old"]), m["file"])
-        open(path, "w").write(src.replace(m["old"], m["new"], m["count"] if m["count"] > 0 else -1))
+        src = src.replace(m["old"], m["new"], m["count"] if m["count"] > 0 else -1)
+        if "then" in m:
+            o2, n2 = m["then"]
+            if src.count(o2) != 1:
+                return m, "STALE", "second pattern not found exactly once"
+            src = src.replace(o2, n2)
+        open(path, "w").write(src)
         if build:
             pk = "./" + os.path.dirname(m["file"]) if os.path.dirname(m["file"]) else "."
             r = subprocess.run(["go", "build", "./..."], cwd=repo, env=ENV, capture_output=True, text=True)
